@@ -323,6 +323,34 @@ func RunCheck(o CheckOpts) int {
 	for _, ob := range bindFailures {
 		results = append(results, &OblResult{ID: ob.Func + "/" + ob.Name, Function: ob.Func, Kind: "bind", Clause: ob.Clause, Status: "bind-failure", obl: ob, Class: "exact"})
 	}
+	// mapwriters clauses: a scan of every function of the declaring package (under contract or not)
+	if o.Only == "" {
+		for _, mw := range w.Contracts.MapWriters {
+			if !hasTagFor(mw.Tags, o.Prop) {
+				continue
+			}
+			clause := "entries of " + mw.Type + "." + mw.Field + " are stored or deleted only by " + strings.Join(mw.Allowed, ", ")
+			writers, found := w.mapFieldWriters(mw)
+			if !found {
+				ob := &Obligation{Name: "bind.mapwriters." + mw.Type + "." + mw.Field, Func: mw.Pkg, Kind: "bind", Clause: "mapwriters names a type or map field that does not exist: " + mw.Src, Guard: "true", Goal: "false"}
+				results = append(results, &OblResult{ID: shortFunc(mw.Pkg) + "/" + ob.Name, Function: shortFunc(mw.Pkg), Kind: "bind", Clause: ob.Clause, Tags: mw.Tags, Status: "bind-failure", obl: ob, Class: "exact"})
+				continue
+			}
+			ok := &Obligation{Name: "mapwriters." + mw.Type + "." + mw.Field + ".checked", Func: mw.Pkg, Kind: "protocol", Clause: clause, Guard: "true", Goal: "true"}
+			results = append(results, &OblResult{ID: shortFunc(mw.Pkg) + "/" + ok.Name, Function: shortFunc(mw.Pkg), Kind: "protocol", Clause: clause, Tags: mw.Tags, Status: "unsat", Backend: "scan", ok: true, obl: ok, Class: "exact"})
+			for _, wr := range writers {
+				allowed := false
+				for _, a := range mw.Allowed {
+					allowed = allowed || a == wr.fn
+				}
+				if allowed {
+					continue
+				}
+				ob := &Obligation{Name: "mapwriters." + mw.Type + "." + mw.Field + "@" + wr.pos, Func: wr.full, Kind: "protocol", Clause: clause + " - written in " + wr.fn, Guard: "true", Goal: "false", Pos: wr.pos}
+				results = append(results, &OblResult{ID: shortFunc(wr.full) + "/" + ob.Name, Function: shortFunc(wr.full), Kind: "protocol", Clause: ob.Clause, Tags: mw.Tags, Status: "protocol-violation", Pos: wr.pos, obl: ob, Class: "exact"})
+			}
+		}
+	}
 	// report
 	kf := LoadKnownFindings(filepath.Join(o.Verif, "known_findings.json"))
 	reproduced := map[string]*ReplayOutcome{}
